@@ -31,159 +31,134 @@ func loadsField(v ssa.Value, field string) bool {
 }
 
 func runC13(c *Ctx) {
+	c.W.buildSSA()
 	rl := c.SSAFunc("protocol", "Protocol.readLoop")
+	rv := c.SSAFunc("protocol", "Protocol.recvLoop")
+	if rl == nil || rv == nil {
+		c.Undecided("protocol read/recv loops not found")
+		return
+	}
 	key := "protocol.(*Protocol).readLoop"
-	// anchors
-	var msgData ssa.Value
-	for _, ci := range allCalls(rl) {
-		if strings.HasSuffix(desc(ci.Common().Value), ".config.MessageFromCborFunc") && len(ci.Common().Args) == 2 {
-			msgData = ci.Common().Args[1]
-		}
-	}
-	if msgData == nil {
-		c.Undecided("readLoop: MessageFromCborFunc call not found")
-	}
-	var msgLens []ssa.Value
-	for _, ci := range allCalls(rl) {
-		if calleeName(ci.Common()) == "len" && ci.Common().Args[0] == msgData {
-			msgLens = append(msgLens, ci.Value())
-		}
-	}
-	isMsgLen := func(v ssa.Value) bool {
-		for _, m := range msgLens {
-			if m == v {
-				return true
-			}
-		}
-		return false
-	}
-	if len(msgLens) == 0 {
-		c.Undecided("readLoop: len(msgData) not computed")
-	}
-	isLimit := func(v ssa.Value) bool {
-		d := desc(v)
-		return strings.Contains(d, ".PendingMessageByteLimit") && !strings.Contains(d, "call:")
-	}
-	// limit must come from StateMap[getCurrentState()]
-	okLimSrc := false
-	for _, b := range rl.Blocks {
-		for _, in := range b.Instrs {
-			if lk, ok := in.(*ssa.Lookup); ok && strings.HasSuffix(desc(lk.X), ".config.StateMap") && strings.Contains(desc(lk.Index), "getCurrentState(") {
-				okLimSrc = true
-			}
-		}
-	}
-	c.Check(okLimSrc, "limit-source", key, rl.Pos(), "limit is StateMap[current state].PendingMessageByteLimit", "the byte limit is not read from the current state's map entry")
+	fns := c.pkgFuncs("protocol")
 
-	var sinks []ssa.Instruction
-	var sentMsg ssa.Value
-	for _, b := range rl.Blocks {
-		for _, in := range b.Instrs {
-			switch x := in.(type) {
-			case *ssa.Select:
-				for _, st := range x.States {
-					if st.Send != nil && strings.HasSuffix(desc(st.Chan), ".recvQueueChan") {
-						sinks = append(sinks, x)
-						sentMsg = st.Send
-					}
-				}
-			case *ssa.Send:
-				if strings.HasSuffix(desc(x.Chan), ".recvQueueChan") {
-					sinks = append(sinks, x)
-					sentMsg = x.X
-				}
+	// ---- value predicates (interprocedural) -------------------------------------------------------------
+	// isMsgLen: len() of the bytes handed to MessageFromCborFunc in the same function, or a parameter that
+	// receives such a value at every call site.
+	var isMsgLen func(v ssa.Value, d int) bool
+	isMsgLen = func(v ssa.Value, d int) bool {
+		if d > 4 {
+			return false
+		}
+		switch x := v.(type) {
+		case *ssa.Call:
+			if calleeName(&x.Call) != "len" {
+				return false
 			}
-		}
-	}
-	if len(sinks) != 1 {
-		c.Undecided("readLoop: expected one enqueue into recvQueueChan, found %d", len(sinks))
-	}
-	c.Check(strings.Contains(desc(sentMsg), ".config.MessageFromCborFunc("), "enqueue-value", key, sinks[0].Pos(), "the decoded message is what is queued", "the value queued is not the decoded message")
-
-	// classify Ifs by value identity
-	type edge struct {
-		b *ssa.BasicBlock
-		i int
-	}
-	var budgetPass, noLimit, oversizePass []edge
-	var budgetIf *ssa.If
-	for _, b := range rl.Blocks {
-		iff, ok := b.Instrs[len(b.Instrs)-1].(*ssa.If)
-		if !ok {
-			continue
-		}
-		bo, ok := iff.Cond.(*ssa.BinOp)
-		if !ok {
-			continue
-		}
-		x, y, op := bo.X, bo.Y, bo.Op
-		if k, ok := y.(*ssa.Const); ok && isLimit(x) && k.Int64() == 0 {
-			// limit > 0 / limit <= 0 / limit == 0 / limit != 0
-			switch op {
-			case token.GTR, token.NEQ:
-				noLimit = append(noLimit, edge{b, 1})
-			case token.LEQ, token.EQL:
-				noLimit = append(noLimit, edge{b, 0})
-			}
-			continue
-		}
-		// normalise to x OP y with limit on the right
-		if isLimit(x) && !isLimit(y) {
-			x, y, op = y, x, swapOp(op)
-		}
-		if !isLimit(y) {
-			continue
-		}
-		if add, ok := x.(*ssa.BinOp); ok && add.Op == token.ADD {
-			a, bb := add.X, add.Y
-			if loadsField(bb, "pendingRecvBytes") {
-				a, bb = bb, a
-			}
-			if loadsField(a, "pendingRecvBytes") && isMsgLen(bb) {
-				switch op {
-				case token.LEQ:
-					budgetPass = append(budgetPass, edge{b, 0})
-					budgetIf = iff
-				case token.GTR:
-					budgetPass = append(budgetPass, edge{b, 1})
-					budgetIf = iff
-				}
-			}
-			continue
-		}
-		if isMsgLen(x) {
-			switch op {
-			case token.GTR:
-				oversizePass = append(oversizePass, edge{b, 1})
-			case token.LEQ:
-				oversizePass = append(oversizePass, edge{b, 0})
-			}
-		}
-	}
-	inSet := func(es ...[]edge) func(*ssa.BasicBlock, int) bool {
-		return func(b *ssa.BasicBlock, i int) bool {
-			for _, s := range es {
-				for _, e := range s {
-					if e.b == b && e.i == i {
-						return true
-					}
+			data := x.Call.Args[0]
+			for _, ci := range allCalls(x.Parent()) {
+				if strings.HasSuffix(desc(ci.Common().Value), ".config.MessageFromCborFunc") && len(ci.Common().Args) == 2 && ci.Common().Args[1] == data {
+					return true
 				}
 			}
 			return false
+		case *ssa.Parameter:
+			f := x.Parent()
+			idx := -1
+			for i, p := range f.Params {
+				if p == x {
+					idx = i
+				}
+			}
+			sites := callersInPkg(f)
+			if idx < 0 || len(sites) == 0 {
+				return false
+			}
+			for _, s := range sites {
+				if idx >= len(s.Common().Args) || !isMsgLen(s.Common().Args[idx], d+1) {
+					return false
+				}
+			}
+			return true
+		case *ssa.Convert:
+			return isMsgLen(x.X, d+1)
 		}
+		return false
 	}
-	// (1)
-	if len(budgetPass) == 0 {
-		c.Bad("enqueue-budget-guard", key, sinks[0].Pos(), "no comparison pendingRecvBytes+msgLen <= limit found")
-	} else {
-		reach, parent := reachAvoiding(rl, inSet(budgetPass, noLimit))
-		c.Check(!reach[sinks[0].Block()], "enqueue-budget-guard", key, sinks[0].Pos(), "enqueue dominated by limit<=0 or pendingRecvBytes+msgLen<=limit",
-			"a message can be queued although pendingRecvBytes+msgLen exceeds the state's limit ("+c.witness(rl, parent, sinks[0].Block())+")")
+	// isLimit: derives only from StateMap[current state].PendingMessageByteLimit (and the constant 0 for "no entry")
+	var isLimit func(v ssa.Value, d int) bool
+	isLimit = func(v ssa.Value, d int) bool {
+		if d > 6 {
+			return false
+		}
+		switch x := v.(type) {
+		case *ssa.Const:
+			return x.Value != nil && x.Int64() == 0 && d > 0
+		case *ssa.Phi:
+			some := false
+			for _, e := range x.Edges {
+				if k, ok := e.(*ssa.Const); ok && k.Value != nil && k.Int64() == 0 {
+					continue
+				}
+				if !isLimit(e, d+1) {
+					return false
+				}
+				some = true
+			}
+			return some
+		case *ssa.UnOp, *ssa.Field, *ssa.FieldAddr:
+			t := trace(v)
+			return strings.HasPrefix(t, "PendingMessageByteLimit<") && strings.Contains(t, "lookup(StateMap<config<") && (strings.Contains(t, "getCurrentState(") || strings.Contains(t, "currentState<"))
+		case *ssa.Call:
+			h := x.Call.StaticCallee()
+			if h == nil || h.Pkg != x.Parent().Pkg || len(h.Blocks) == 0 {
+				return false
+			}
+			some := false
+			for _, hb := range h.Blocks {
+				if r, ok := hb.Instrs[len(hb.Instrs)-1].(*ssa.Return); ok && len(r.Results) == 1 {
+					rvv := returnedValue(r, 0)
+					if k, ok := rvv.(*ssa.Const); ok && k.Value != nil && k.Int64() == 0 {
+						continue
+					}
+					if !isLimit(rvv, d+1) {
+						return false
+					}
+					some = true
+				}
+			}
+			return some
+		case *ssa.Parameter:
+			f := x.Parent()
+			idx := -1
+			for i, p := range f.Params {
+				if p == x {
+					idx = i
+				}
+			}
+			sites := callersInPkg(f)
+			if idx < 0 || len(sites) == 0 {
+				return false
+			}
+			for _, s := range sites {
+				if idx >= len(s.Common().Args) || !isLimit(s.Common().Args[idx], d+1) {
+					return false
+				}
+			}
+			return true
+		}
+		return false
 	}
-	// (2) increment on the pass edge, same critical section
-	nInc := 0
-	for _, b := range rl.Blocks {
-		for _, in := range b.Instrs {
+
+	// ---- (1) writers of pendingRecvBytes, package-wide ---------------------------------------------------
+	type incSite struct {
+		fn *ssa.Function
+		st *ssa.Store
+		v  ssa.Value
+	}
+	var incs []incSite
+	var decs []*ssa.Store
+	for _, fn := range fns {
+		for _, in := range fnInstrs(fn) {
 			st, ok := in.(*ssa.Store)
 			if !ok {
 				continue
@@ -192,54 +167,315 @@ func runC13(c *Ctx) {
 			if !ok || fieldName(fa.X.Type(), fa.Field) != "pendingRecvBytes" {
 				continue
 			}
-			nInc++
-			add, ok := st.Val.(*ssa.BinOp)
-			okVal := ok && add.Op == token.ADD && (loadsField(add.X, "pendingRecvBytes") && isMsgLen(add.Y) || loadsField(add.Y, "pendingRecvBytes") && isMsgLen(add.X))
-			c.Check(okVal, "increment-value", fmt.Sprintf("%s:%d", key, nInc), st.Pos(), "pendingRecvBytes += msgLen of this message", "pendingRecvBytes is updated with "+desc(st.Val)+", not += len(message bytes)")
-			held := heldAt(rl, st, ".pendingBytesMu", []string{"Lock"}, []string{"Unlock"})
-			c.Check(held, "increment-locked", fmt.Sprintf("%s:%d", key, nInc), st.Pos(), "under pendingBytesMu", "pendingRecvBytes is incremented without pendingBytesMu held")
-			// if the limited path: must be on the pass edge in the same critical section as the compare
-			if budgetIf != nil && budgetIf.Block().Dominates(b) && b != budgetIf.Block() {
-				onPass := false
-				for _, e := range budgetPass {
-					if e.b.Succs[e.i] == b && len(b.Preds) == 1 {
-						onPass = true
+			fk := ssaFuncKey(fn)
+			switch x := st.Val.(type) {
+			case *ssa.BinOp:
+				if x.Op == token.ADD && (loadsField(x.X, "pendingRecvBytes") || loadsField(x.Y, "pendingRecvBytes")) {
+					v := x.Y
+					if loadsField(x.Y, "pendingRecvBytes") {
+						v = x.X
+					}
+					incs = append(incs, incSite{fn, st, v})
+					continue
+				}
+				if x.Op == token.SUB && loadsField(x.X, "pendingRecvBytes") {
+					decs = append(decs, st)
+					continue
+				}
+			case *ssa.Const:
+				if x.Value != nil && x.Int64() == 0 {
+					continue // clamp / reset
+				}
+			case *ssa.Call:
+				if calleeName(&x.Call) == "max" {
+					decs = append(decs, st)
+					continue
+				}
+			case *ssa.Phi:
+				// clamp written as a conditional: all edges are either a subtraction of the counter or 0
+				okPhi := true
+				for _, e := range x.Edges {
+					if k, isK := e.(*ssa.Const); isK && k.Value != nil && k.Int64() == 0 {
+						continue
+					}
+					if bo, isBo := e.(*ssa.BinOp); isBo && bo.Op == token.SUB && loadsField(bo.X, "pendingRecvBytes") {
+						continue
+					}
+					okPhi = false
+				}
+				if okPhi {
+					decs = append(decs, st)
+					continue
+				}
+			}
+			c.Bad("recv-bytes-writers", fk+":"+shortArg(desc(st.Val)), st.Pos(), "pendingRecvBytes is assigned %s: it may only grow by the length of a message being queued or shrink by a recorded size", desc(st.Val))
+		}
+	}
+	if len(incs) == 0 {
+		c.Undecided("no increment of pendingRecvBytes found in package protocol")
+		return
+	}
+
+	// ---- (2) every increment is guarded, locked, atomic with its check, and adds the message length -----
+	for i, inc := range incs {
+		fn, st, v := inc.fn, inc.st, inc.v
+		ik := fmt.Sprintf("%s:inc#%d", ssaFuncKey(fn), i+1)
+		c.Check(isMsgLen(v, 0), "increment-value", ik, st.Pos(), "pendingRecvBytes += length of the message being queued", "pendingRecvBytes grows by "+shortArg(trace(v))+", which is not (at every call site) the length of the message being queued")
+		held := heldAt(fn, st, ".pendingBytesMu", []string{"Lock"}, []string{"Unlock"})
+		c.Check(held, "increment-locked", ik, st.Pos(), "under pendingBytesMu", "pendingRecvBytes is incremented without pendingBytesMu held")
+		// guard edges in fn: L<=0 ; pending+v<=L
+		type edge struct {
+			b *ssa.BasicBlock
+			i int
+		}
+		var pass []edge
+		var budgetIf *ssa.If
+		limitOK := true
+		for _, b := range fn.Blocks {
+			iff, ok := b.Instrs[len(b.Instrs)-1].(*ssa.If)
+			if !ok {
+				continue
+			}
+			bo, ok := iff.Cond.(*ssa.BinOp)
+			if !ok {
+				continue
+			}
+			x, y, op := bo.X, bo.Y, bo.Op
+			if k, ok := y.(*ssa.Const); ok && k.Value != nil && k.Int64() == 0 && isLimit(x, 0) {
+				switch op {
+				case token.GTR, token.NEQ:
+					pass = append(pass, edge{b, 1})
+				case token.LEQ, token.EQL:
+					pass = append(pass, edge{b, 0})
+				}
+				continue
+			}
+			isSum := func(s ssa.Value) bool {
+				add, ok := s.(*ssa.BinOp)
+				return ok && add.Op == token.ADD && ((loadsField(add.X, "pendingRecvBytes") && add.Y == v) || (loadsField(add.Y, "pendingRecvBytes") && add.X == v))
+			}
+			if isSum(y) && !isSum(x) {
+				x, y, op = y, x, swapOp(op)
+			}
+			if !isSum(x) {
+				continue
+			}
+			if !isLimit(y, 0) {
+				limitOK = false
+			}
+			switch op {
+			case token.LEQ:
+				pass = append(pass, edge{b, 0})
+				budgetIf = iff
+			case token.GTR:
+				pass = append(pass, edge{b, 1})
+				budgetIf = iff
+			}
+		}
+		if budgetIf == nil {
+			c.Bad("enqueue-budget-guard", ik, st.Pos(), "pendingRecvBytes is increased without any comparison of pendingRecvBytes+length with the state's limit in the same function: the receive buffer is unbounded")
+			continue
+		}
+		c.Check(limitOK, "limit-source", ik, budgetIf.Pos(), "the limit compared is StateMap[current state].PendingMessageByteLimit", "the value the pending bytes are compared with is not (at every call site) the current state's PendingMessageByteLimit")
+		reach, parent := reachAvoiding(fn, func(b *ssa.BasicBlock, i int) bool {
+			for _, e := range pass {
+				if e.b == b && e.i == i {
+					return true
+				}
+			}
+			return false
+		})
+		c.Check(!reach[st.Block()], "enqueue-budget-guard", ik, st.Pos(), "the increment is reachable only when limit<=0 or pendingRecvBytes+len<=limit",
+			"pendingRecvBytes can be increased although pendingRecvBytes+length exceeds the state's limit ("+c.witness(fn, parent, st.Block())+")")
+		sameCS := heldAt(fn, budgetIf, ".pendingBytesMu", []string{"Lock"}, []string{"Unlock"})
+		if sameCS {
+			// from the pass edge to the store, without re-entering the comparison, no (non-deferred) unlock may occur
+			var startBlocks []*ssa.BasicBlock
+			for _, e := range pass {
+				if e.b == budgetIf.Block() {
+					startBlocks = append(startBlocks, e.b.Succs[e.i])
+				}
+			}
+			region := reachFromAvoiding(startBlocks, func(from *ssa.BasicBlock, i int) bool { return from.Succs[i] == budgetIf.Block() })
+			for _, sb := range startBlocks {
+				region[sb] = true
+			}
+			for _, ci := range allCalls(fn) {
+				if _, isDefer := ci.(*ssa.Defer); isDefer {
+					continue
+				}
+				if !isLockCall(ci, ".pendingBytesMu", "Unlock", "RUnlock") || !region[ci.Block()] {
+					continue
+				}
+				u := ci.(ssa.Instruction)
+				if u.Block() == st.Block() && precedes(u, st) {
+					sameCS = false
+				} else if u.Block() != st.Block() && reachesInstr(u, st) && !reachesBlockAvoiding(u.Block(), st.Block(), budgetIf.Block()) == false {
+					sameCS = false
+				}
+			}
+		}
+		// the unlimited branch need not share the section with a comparison it does not make
+		onBudgetPath := budgetIf.Block().Dominates(st.Block())
+		c.Check(!onBudgetPath || sameCS, "increment-atomic-with-check", ik, st.Pos(), "check and increment are one critical section", "check and increment of pendingRecvBytes are not one critical section: two checks can both pass before either increments")
+		// FIFO push next to the increment
+		pushed := false
+		for _, ci := range allCalls(fn) {
+			if calleeName(ci.Common()) != "append" || !strings.HasSuffix(desc(ci.Common().Args[0]), ".pendingRecvSizes") {
+				continue
+			}
+			if ci.Block() != st.Block() {
+				continue
+			}
+			if sl, ok := ci.Common().Args[1].(*ssa.Slice); ok {
+				if al, ok := sl.X.(*ssa.Alloc); ok {
+					for _, u := range referrersOf(al) {
+						if ia, ok := u.(*ssa.IndexAddr); ok {
+							for _, u2 := range referrersOf(ia) {
+								if s2, ok := u2.(*ssa.Store); ok && s2.Val == v {
+									pushed = true
+								}
+							}
+						}
 					}
 				}
-				// same critical section: the mutex is held at the comparison and no lock operation on it
-				// precedes the store inside the pass block
-				sameCS := heldAt(rl, budgetIf, ".pendingBytesMu", []string{"Lock"}, []string{"Unlock"})
-				for _, in2 := range b.Instrs {
-					if in2 == st {
-						break
-					}
-					if ci, ok := in2.(ssa.CallInstruction); ok && isLockCall(ci, ".pendingBytesMu", "Lock", "Unlock") {
-						sameCS = false
+			}
+		}
+		c.Check(pushed, "sizes-push", ik, st.Pos(), "the same length is appended to pendingRecvSizes with the increment", "the length added to pendingRecvBytes is not recorded in pendingRecvSizes alongside: the later release subtracts a different amount")
+	}
+
+	// ---- (3) the enqueue is preceded by an increment (through helpers) -----------------------------------
+	isInc := func(in ssa.Instruction) bool {
+		for _, inc := range incs {
+			if ssa.Instruction(inc.st) == in {
+				return true
+			}
+		}
+		return false
+	}
+	var sinks []ssa.Instruction
+	var sinkFn *ssa.Function
+	var sentMsg ssa.Value
+	for _, fn := range closureFuncs(rl, 2) {
+		for _, in := range fnInstrs(fn) {
+			switch x := in.(type) {
+			case *ssa.Select:
+				for _, st := range x.States {
+					if st.Send != nil && strings.HasSuffix(desc(st.Chan), ".recvQueueChan") {
+						sinks = append(sinks, x)
+						sentMsg, sinkFn = st.Send, fn
 					}
 				}
-				c.Check(onPass && sameCS, "increment-atomic-with-check", fmt.Sprintf("%s:%d", key, nInc), st.Pos(), "increment is on the pass edge, in the critical section of the comparison",
-					"check and increment of pendingRecvBytes are not one critical section on the pass edge: two checks can both pass before either increments")
+			case *ssa.Send:
+				if strings.HasSuffix(desc(x.Chan), ".recvQueueChan") {
+					sinks = append(sinks, x)
+					sentMsg, sinkFn = x.X, fn
+				}
 			}
 		}
 	}
-	if nInc == 0 {
-		c.Bad("increment-value", key, rl.Pos(), "readLoop never accounts received bytes in pendingRecvBytes")
+	if len(sinks) != 1 {
+		c.Undecided("readLoop: expected one enqueue into recvQueueChan in its call closure, found %d", len(sinks))
+		return
 	}
-	// (3) oversize
-	if budgetIf != nil {
-		if len(oversizePass) == 0 {
-			c.Bad("oversize-guard", key, budgetIf.Pos(), "no msgLen > limit rejection before the backpressure wait: an oversized message spins forever")
-		} else {
-			reach, parent := reachAvoiding(rl, inSet(oversizePass, noLimit))
-			c.Check(!reach[budgetIf.Block()], "oversize-guard", key, budgetIf.Pos(), "the wait loop is entered only when msgLen <= limit",
-				"the backpressure wait is reachable with msgLen > limit ("+c.witness(rl, parent, budgetIf.Block())+")")
-			for _, e := range oversizePass {
-				rej := e.b.Succs[1-e.i]
-				c.Check(blockPathsCall(rej, "protocol.(*Protocol).SendError"), "oversize-reports", key, rej.Instrs[0].Pos(), "oversized message ends in SendError and return", "an oversized message does not end the protocol with an error")
+	if sinkFn == rl {
+		c.Check(strings.Contains(trace(sentMsg), "MessageFromCborFunc"), "enqueue-value", key, sinks[0].Pos(), "the decoded message is what is queued", "the value queued is not the decoded message")
+	}
+	v := c.mustPassEv(sinkFn, sinks, PassSpec{Instr: isInc})
+	okAcc := v[0].OK
+	if !okAcc && sinkFn != rl {
+		// the enqueue sits in a helper: every call site must be preceded by the accounting
+		okAcc = true
+		for _, site := range callersInPkg(sinkFn) {
+			vv := c.mustPassEv(site.Parent(), []ssa.Instruction{site.(ssa.Instruction)}, PassSpec{Instr: isInc})
+			if !vv[0].OK {
+				okAcc = false
 			}
 		}
 	}
-	// (4) incomplete CBOR
+	c.Check(okAcc, "accounted-before-enqueue", key, sinks[0].Pos(), "every path to the enqueue has accounted the message's bytes", "a message can be queued for recvLoop without its bytes having been added to pendingRecvBytes ("+v[0].Witness+")")
+
+	// ---- (4) oversize: the retry wait is entered only when the message can ever fit ----------------------
+	{
+		var waits []*ssa.Select
+		for _, in := range fnInstrs(rl) {
+			sel, ok := in.(*ssa.Select)
+			if !ok || !sel.Blocking || !inLoop(sel.Block()) {
+				continue
+			}
+			for _, st := range sel.States {
+				if strings.Contains(trace(st.Chan), "After(") {
+					waits = append(waits, sel)
+				}
+			}
+		}
+		for _, sel := range waits {
+			type edge struct {
+				b *ssa.BasicBlock
+				i int
+			}
+			var pass []edge
+			found := false
+			for _, b := range rl.Blocks {
+				iff, ok := b.Instrs[len(b.Instrs)-1].(*ssa.If)
+				if !ok {
+					continue
+				}
+				bo, ok := iff.Cond.(*ssa.BinOp)
+				if !ok {
+					continue
+				}
+				x, y, op := bo.X, bo.Y, bo.Op
+				if k, ok := y.(*ssa.Const); ok && k.Value != nil && k.Int64() == 0 && isLimit(x, 0) {
+					switch op {
+					case token.GTR, token.NEQ:
+						pass = append(pass, edge{b, 1})
+					case token.LEQ, token.EQL:
+						pass = append(pass, edge{b, 0})
+					}
+					continue
+				}
+				if isLimit(x, 0) && isMsgLen(y, 0) {
+					x, y, op = y, x, swapOp(op)
+				}
+				if isMsgLen(x, 0) && isLimit(y, 0) {
+					found = true
+					switch op {
+					case token.GTR:
+						pass = append(pass, edge{b, 1})
+						rej := b.Succs[0]
+						c.Check(blockPathsCall(rej, "protocol.(*Protocol).SendError"), "oversize-reports", key, iff.Pos(), "an oversized message ends in SendError and return", "an oversized message does not end the protocol with an error")
+					case token.LEQ:
+						pass = append(pass, edge{b, 0})
+						rej := b.Succs[1]
+						c.Check(blockPathsCall(rej, "protocol.(*Protocol).SendError"), "oversize-reports", key, iff.Pos(), "an oversized message ends in SendError and return", "an oversized message does not end the protocol with an error")
+					}
+				}
+			}
+			if !found {
+				c.Bad("oversize-guard", key, sel.Pos(), "the back-pressure wait is not preceded by a length > limit rejection: a single message larger than the state's limit makes readLoop wait forever")
+				continue
+			}
+			reach, parent := reachAvoiding(rl, func(b *ssa.BasicBlock, i int) bool {
+				for _, e := range pass {
+					if e.b == b && e.i == i {
+						return true
+					}
+				}
+				return false
+			})
+			c.Check(!reach[sel.Block()], "oversize-guard", key, sel.Pos(), "the wait is entered only when length <= limit", "the back-pressure wait is reachable with a message longer than the limit ("+c.witness(rl, parent, sel.Block())+")")
+		}
+		if len(waits) == 0 {
+			c.Note("readLoop has no timed back-pressure wait")
+		}
+	}
+
+	// ---- (5) incomplete CBOR accumulation is bounded ------------------------------------------------------
+	type edge struct {
+		b *ssa.BasicBlock
+		i int
+	}
 	maxBuf := c.ConstInt("protocol", "maxReadBufferSize")
 	c.Check(maxBuf == 16*1024*1024, "read-buffer-bound", "protocol.maxReadBufferSize", rl.Pos(), "16 MiB", fmt.Sprintf("maxReadBufferSize is %d, not 16 MiB", maxBuf))
 	var eofEdges []edge
@@ -249,7 +485,7 @@ func runC13(c *Ctx) {
 		}
 	}
 	if len(eofEdges) == 0 {
-		c.Bad("incomplete-bound", key, rl.Pos(), "no io.ErrUnexpectedEOF continuation found")
+		c.Undecided("%s: the io.ErrUnexpectedEOF continuation was not recognised", key)
 	}
 	sizePass := cutByFacts(rl, func(f string) bool {
 		return strings.HasPrefix(f, "call:bytes.(*Buffer).Len(") && (strings.HasSuffix(f, fmt.Sprintf(" <= %d", maxBuf)) || strings.HasSuffix(f, fmt.Sprintf(" < %d", maxBuf+1)))
@@ -278,49 +514,139 @@ func runC13(c *Ctx) {
 		c.Check(!loops, "incomplete-bound", key, start.Instrs[0].Pos(), "waiting for more bytes is only possible while readBuffer.Len() <= maxReadBufferSize",
 			"incomplete CBOR can be accumulated without the 16 MiB read-buffer bound being checked")
 	}
-	// (5) lock discipline for the accounting fields, package-wide
+
+	// ---- (6) lock discipline for the accounting fields, package-wide -------------------------------------
 	nAcc := 0
-	for _, fn := range c.pkgFuncs("protocol") {
-		for _, b := range fn.Blocks {
-			for _, in := range b.Instrs {
-				fa, ok := in.(*ssa.FieldAddr)
-				if !ok || !isNamed(fa.X.Type(), "protocol", "Protocol") {
+	for _, fn := range fns {
+		for _, in := range fnInstrs(fn) {
+			fa, ok := in.(*ssa.FieldAddr)
+			if !ok || !isNamed(fa.X.Type(), "protocol", "Protocol") {
+				continue
+			}
+			fname := fieldName(fa.X.Type(), fa.Field)
+			if fname != "pendingRecvBytes" && fname != "pendingRecvSizes" {
+				continue
+			}
+			for _, use := range referrersOf(fa) {
+				if _, isDbg := use.(*ssa.DebugRef); isDbg {
 					continue
 				}
-				fname := fieldName(fa.X.Type(), fa.Field)
-				if fname != "pendingRecvBytes" && fname != "pendingRecvSizes" {
-					continue
-				}
-				for _, use := range referrersOf(fa) {
-					if _, isDbg := use.(*ssa.DebugRef); isDbg {
-						continue
-					}
-					nAcc++
-					held := heldAt(fn, use, ".pendingBytesMu", []string{"Lock"}, []string{"Unlock"})
-					c.Check(held, "accounting-locked", fmt.Sprintf("%s:%s:%d", ssaFuncKey(fn), fname, nAcc), use.Pos(), "access under pendingBytesMu", "access to "+fname+" without pendingBytesMu held")
-				}
+				nAcc++
+				held := heldAt(fn, use, ".pendingBytesMu", []string{"Lock"}, []string{"Unlock"})
+				c.Check(held, "accounting-locked", fmt.Sprintf("%s:%s:%d", ssaFuncKey(fn), fname, nAcc), use.Pos(), "access under pendingBytesMu", "access to "+fname+" without pendingBytesMu held")
 			}
 		}
 	}
-	c.Floor("accounting-locked", 10)
-	// (6) FIFO accounting
-	c.checkRecvAccountingFIFO(rl, isMsgLen)
-	// (7) blocking selects are wake-able
-	for _, b := range rl.Blocks {
-		for _, in := range b.Instrs {
-			sel, ok := in.(*ssa.Select)
-			if !ok || !sel.Blocking {
-				continue
+
+	// ---- (7) release: FIFO head, after every handled message ----------------------------------------------
+	if len(decs) == 0 {
+		c.Bad("sizes-pop", "protocol:pendingRecvBytes", rv.Pos(), "pendingRecvBytes is never decreased: after the first limit's worth of messages the reader waits forever")
+	}
+	isDecEvent := func(in ssa.Instruction) bool {
+		for _, d := range decs {
+			if ssa.Instruction(d) == in {
+				return true
 			}
-			wake := false
-			for _, st := range sel.States {
-				d := desc(st.Chan)
-				if st.Send == nil && (strings.HasSuffix(d, ".stopChan") || strings.HasSuffix(d, ".muxerDoneChan")) {
-					wake = true
+		}
+		return false
+	}
+	for i, d := range decs {
+		fn := d.Parent()
+		dk := fmt.Sprintf("%s:dec#%d", ssaFuncKey(fn), i+1)
+		// what is subtracted: pendingRecvSizes[0]
+		var sub ssa.Value
+		var find func(v ssa.Value, depth int)
+		find = func(v ssa.Value, depth int) {
+			if depth > 4 || sub != nil {
+				return
+			}
+			switch x := v.(type) {
+			case *ssa.BinOp:
+				if x.Op == token.SUB && loadsField(x.X, "pendingRecvBytes") {
+					sub = x.Y
+				}
+			case *ssa.Call:
+				for _, a := range x.Call.Args {
+					find(a, depth+1)
+				}
+			case *ssa.Phi:
+				for _, e := range x.Edges {
+					find(e, depth+1)
 				}
 			}
-			c.Check(wake, "wait-wakeable", fmt.Sprintf("%s:%s", key, desc(sel)), sel.Pos(), "blocking select has a stop/muxer-done case", "blocking select in readLoop cannot be woken by shutdown: "+desc(sel))
 		}
+		find(d.Val, 0)
+		okHead := sub != nil && strings.HasPrefix(trace(sub), "pendingRecvSizes<") && strings.HasSuffix(trace(sub), "[]") && indexIsConst(sub, 0)
+		shown := "?"
+		if sub != nil {
+			shown = trace(sub)
+		}
+		c.Check(okHead, "sizes-pop", dk+":head", d.Pos(), "subtracts pendingRecvSizes[0] (oldest message)", "the release subtracts "+shortArg(shown)+" instead of the oldest recorded size pendingRecvSizes[0]: the counter drifts from the bytes really queued")
+		// the queue advances by [1:] in the same function
+		adv := false
+		for _, in := range fnInstrs(fn) {
+			if st, ok := in.(*ssa.Store); ok {
+				if fa, ok := st.Addr.(*ssa.FieldAddr); ok && fieldName(fa.X.Type(), fa.Field) == "pendingRecvSizes" {
+					if sl, ok := st.Val.(*ssa.Slice); ok && sl.Low != nil && desc(sl.Low) == "1" && sl.High == nil && loadsField(sl.X, "pendingRecvSizes") {
+						adv = true
+					}
+				}
+			}
+		}
+		c.Check(adv, "sizes-pop", dk+":advance", d.Pos(), "advances the queue by [1:]", "pendingRecvSizes is not advanced by dropping element 0 where its head is subtracted")
+	}
+	// after a successfully handled message every path back to the loop head passes a release (or finds nothing recorded)
+	{
+		var starts []*ssa.BasicBlock
+		var hmBlock *ssa.BasicBlock
+		for _, ef := range edgeFacts(rv) {
+			if strings.HasPrefix(ef.Fact, "call:protocol.(*Protocol).handleMessage(") && strings.HasSuffix(ef.Fact, ") == nil") {
+				starts = append(starts, ef.From.Succs[ef.Succ])
+				hmBlock = ef.From
+			}
+		}
+		if len(starts) == 0 {
+			c.Undecided("recvLoop: the handleMessage success edge was not recognised")
+		} else {
+			spec := PassSpec{
+				Instr: isDecEvent,
+				Edge: func(f string) bool {
+					return strings.HasPrefix(f, "len(") && strings.Contains(f, ".pendingRecvSizes) ") && (strings.HasSuffix(f, " <= 0") || strings.HasSuffix(f, " == 0"))
+				},
+			}
+			pc := computePassCuts(rv, spec, 2, map[*ssa.Function]bool{})
+			reach := reachFromAvoiding(starts, pc.cut)
+			for _, s := range starts {
+				reach[s] = true
+			}
+			bad := false
+			for b := range reach {
+				if pc.after[b] != nil {
+					continue
+				}
+				// reaching the handleMessage block again (next iteration) or a return-less loop head without a release
+				if b == hmBlock {
+					bad = true
+				}
+			}
+			c.Check(!bad, "decrement-after-handle", "protocol.(*Protocol).recvLoop", hmBlock.Instrs[0].Pos(), "every successfully handled message is released before the next one is handled", "a handled message can be followed by the next one without its bytes having been released from pendingRecvBytes")
+		}
+	}
+
+	// ---- (8) blocking selects in readLoop are wake-able ---------------------------------------------------
+	for _, in := range fnInstrs(rl) {
+		sel, ok := in.(*ssa.Select)
+		if !ok || !sel.Blocking {
+			continue
+		}
+		wake := false
+		for _, st := range sel.States {
+			d := desc(st.Chan)
+			if st.Send == nil && (strings.HasSuffix(d, ".stopChan") || strings.HasSuffix(d, ".muxerDoneChan")) {
+				wake = true
+			}
+		}
+		c.Check(wake, "wait-wakeable", fmt.Sprintf("%s:%s", key, desc(sel)), sel.Pos(), "blocking select has a stop/muxer-done case", "blocking select in readLoop cannot be woken by shutdown: "+desc(sel))
 	}
 }
 
@@ -367,114 +693,31 @@ func blockPathsCall(b *ssa.BasicBlock, callee string) bool {
 	return ok
 }
 
-func (c *Ctx) checkRecvAccountingFIFO(rl *ssa.Function, isMsgLen func(ssa.Value) bool) {
-	// pushes in readLoop: append(pendingRecvSizes, msgLen)
-	nPush := 0
-	for _, ci := range allCalls(rl) {
-		if calleeName(ci.Common()) != "append" || !strings.HasSuffix(desc(ci.Common().Args[0]), ".pendingRecvSizes") {
-			continue
-		}
-		nPush++
-		// appended slice: address of a [1]int array holding msgLen
-		okVal := false
-		if sl, ok := ci.Common().Args[1].(*ssa.Slice); ok {
-			if al, ok := sl.X.(*ssa.Alloc); ok {
-				for _, u := range referrersOf(al) {
-					if ia, ok := u.(*ssa.IndexAddr); ok {
-						for _, u2 := range referrersOf(ia) {
-							if st, ok := u2.(*ssa.Store); ok && isMsgLen(st.Val) {
-								okVal = true
-							}
-						}
-					}
-				}
-			}
-		}
-		c.Check(okVal, "sizes-push", fmt.Sprintf("protocol.(*Protocol).readLoop:%d", nPush), ci.Pos(), "msgLen appended at the tail of pendingRecvSizes", "the size pushed onto pendingRecvSizes is not the message length added to the counter")
-	}
-	if nPush == 0 {
-		c.Bad("sizes-push", "protocol.(*Protocol).readLoop", rl.Pos(), "readLoop never records message sizes")
-	}
-	rv := c.SSAFunc("protocol", "Protocol.recvLoop")
-	key := "protocol.(*Protocol).recvLoop"
-	var dec *ssa.Store
-	var adv *ssa.Store
-	for _, b := range rv.Blocks {
-		for _, in := range b.Instrs {
-			st, ok := in.(*ssa.Store)
-			if !ok {
-				continue
-			}
-			fa, ok := st.Addr.(*ssa.FieldAddr)
-			if !ok {
-				continue
-			}
-			switch fieldName(fa.X.Type(), fa.Field) {
-			case "pendingRecvBytes":
-				if bo, ok := st.Val.(*ssa.BinOp); ok && bo.Op == token.SUB {
-					dec = st
-				}
-			case "pendingRecvSizes":
-				adv = st
-			}
-		}
-	}
-	if dec == nil || adv == nil {
-		c.Bad("sizes-pop", key, rv.Pos(), "recvLoop does not subtract a recorded size and advance pendingRecvSizes")
-		return
-	}
-	sub := dec.Val.(*ssa.BinOp)
-	subD := desc(sub.Y)
-	c.Check(loadsField(sub.X, "pendingRecvBytes") && strings.HasSuffix(subD, ".pendingRecvSizes[0]"), "sizes-pop", key+":head", dec.Pos(), "subtracts pendingRecvSizes[0] (oldest message)",
-		"recvLoop subtracts "+subD+" instead of the oldest recorded size pendingRecvSizes[0]: the counter drifts from the bytes really queued")
-	advD := desc(adv.Val)
-	c.Check(strings.HasSuffix(advD, ".pendingRecvSizes[1:]"), "sizes-pop", key+":advance", adv.Pos(), "advances the queue by [1:]", "pendingRecvSizes is advanced by "+advD+", not by dropping element 0")
-	// after a successful handleMessage every path back to the loop head passes the len(sizes)>0 test
-	var okEdgeSucc []*ssa.BasicBlock
-	for _, ef := range edgeFacts(rv) {
-		if strings.HasPrefix(ef.Fact, "call:protocol.(*Protocol).handleMessage(") && strings.HasSuffix(ef.Fact, ") == nil") {
-			okEdgeSucc = append(okEdgeSucc, ef.From.Succs[ef.Succ])
-		}
-	}
-	var testBlocks []*ssa.BasicBlock
-	for _, ef := range edgeFacts(rv) {
-		if strings.HasPrefix(ef.Fact, "len(") && strings.Contains(ef.Fact, ".pendingRecvSizes) > 0") {
-			testBlocks = append(testBlocks, ef.From)
-		}
-	}
-	okPost := len(okEdgeSucc) > 0 && len(testBlocks) > 0
-	for _, s := range okEdgeSucc {
-		if containsBlock(testBlocks, s) {
-			continue
-		}
-		// can we get back to the handleMessage block without passing a test block?
-		seen := map[*ssa.BasicBlock]bool{s: true}
-		q := []*ssa.BasicBlock{s}
-		for len(q) > 0 {
-			b := q[0]
-			q = q[1:]
-			for _, nx := range b.Succs {
-				if containsBlock(testBlocks, nx) {
-					continue
-				}
-				if containsBlock(okEdgeSucc, nx) || nx.Index < s.Index && nx.Dominates(s) {
-					okPost = false
-				}
-				if !seen[nx] {
-					seen[nx] = true
-					q = append(q, nx)
-				}
-			}
-		}
-	}
-	c.Check(okPost && testBlocks[0].Dominates(dec.Block()), "decrement-after-handle", key, dec.Pos(), "every successfully handled message reaches the decrement before the next iteration",
-		"a handled message can start the next iteration without its bytes being released from pendingRecvBytes")
-}
-
 func containsBlock(bs []*ssa.BasicBlock, b *ssa.BasicBlock) bool {
 	for _, x := range bs {
 		if x == b {
 			return true
+		}
+	}
+	return false
+}
+
+// reachesBlockAvoiding: b is reachable from a without passing through the block avoid.
+func reachesBlockAvoiding(a, b, avoid *ssa.BasicBlock) bool {
+	seen := map[*ssa.BasicBlock]bool{a: true}
+	q := []*ssa.BasicBlock{a}
+	for len(q) > 0 {
+		x := q[0]
+		q = q[1:]
+		for _, s := range x.Succs {
+			if s == avoid || seen[s] {
+				continue
+			}
+			if s == b {
+				return true
+			}
+			seen[s] = true
+			q = append(q, s)
 		}
 	}
 	return false
